@@ -303,13 +303,23 @@ def run(tier):
     # in-process histories must run in this thread (gc / __del__ ordering); kill histories spawn children
     for i in range(len(hist)):
         common.tick()
-        results[i] = one(i)
+        try:
+            results[i] = one(i)
+        except Exception as e:
+            # the history itself is the failing input (e.g. the cache directory vanished under a dataset that still uses it)
+            failures.append(dict(kind='history', summary=f'lifecycle n={hist[i][0]} {hist[i][1]} could not be run to its end: {type(e).__name__}: {e}'[:600],
+                                 config=dict(n=hist[i][0], segments=hist[i][1])))
+            results[i] = None
     for i, (n, segs) in enumerate(hist):
         res = results[i]
+        if res is None:
+            cases.append(None)
+            continue
         for msg in direct(n, segs, res):
             failures.append(dict(kind='history', summary=msg, config=dict(n=n, segments=segs), got_from_impl=repr(res)[:600]))
         cases.append(coq_case(n, segs, res))
-    bad = eval_cases(cases, f'C11_{tier}')
+    live = [i for i, c in enumerate(cases) if c is not None]
+    bad = [live[j] for j in eval_cases([cases[i] for i in live], f'C11_{tier}')]
     for i in bad:
         n, segs = hist[i]
         failures.append(dict(kind='history', summary=f'model and implementation disagree on lifecycle n={n} {segs}: impl={results[i]!r}'[:700],
@@ -335,7 +345,7 @@ def run(tier):
                     'sequential wrappers; kill histories run each pre-kill segment in a child process that SIGKILLs itself; non-trivial = >= 4 ops',
                traces_validated_against_impl=len(hist), disagreements_checked=len(bad), op_histogram=dict(opc),
                kill_histories=NK, foreign_directory_runs=nforeign, temporary_directory_runs=ntemp, random_instant_kills=4 if tier == 'quick' else 50,
-               samples=[dict(n=hist[i][0], segments=hist[i][1], result=results[i]) for i in (0, N, len(hist) - 1)],
+               samples=[dict(n=hist[i][0], segments=hist[i][1], result=results[i]) for i in (0, N, len(hist) - 1) if results[i] is not None],
                exhaustive=False)
     return dict(coverage=cov, failures=failures, assumptions=['one diskcache store is atomic and durable across kill -9 (SQLite)'])
 
